@@ -178,6 +178,17 @@ def check_bundle(bundle, obs, typed):
         if again != enc_orc:
             viols.append(('d3', 're-encoding the decoded independent encoding changed the bytes at offset %d' % _first_diff(again, enc_orc),
                           dict(enc=enc_orc.hex()[:400], again=again.hex()[:400])))
+        elif not bad_crc:
+            # what a forwarding agent does before it re-encodes: fill defaults and compute every CRC again, on blocks that already
+            # hold one.  Nothing was changed, so the octets must come out as they came in.
+            redo = Bundle(enc_orc)
+            redo.fill_fields()
+            redo.update_all_crc()
+            again = bytes(redo)
+            obs['crc_recomputed_roundtrips'] = obs.get('crc_recomputed_roundtrips', 0) + 1
+            if again != enc_orc and bundle['primary'].get('create_time') and bundle['primary'].get('lifetime'):
+                viols.append(('d3', 'decode, recompute all CRCs, encode changed the bytes of an unchanged bundle at offset %d' % _first_diff(again, enc_orc),
+                              dict(enc=enc_orc.hex()[:400], again=again.hex()[:400])))
         # typed views of known blocks
         view = gen.typed_view(back)
         for blk in bundle['blocks']:
@@ -307,8 +318,11 @@ def check_times(case, obs):
     viols = []
     for val in sorted(v for v in values if 0 < v < 2 ** 47):
         when = epoch + datetime.timedelta(milliseconds=val)
-        for form in ('datetime', 'text'):
-            given = when if form == 'datetime' else when.replace(tzinfo=None).isoformat(timespec='milliseconds')
+        # the same instant written on the clock of another zone (every 7th value, to keep the run short)
+        zone = datetime.timezone(datetime.timedelta(minutes=[120, -330, 765, -1][val % 4]))
+        for form in ('datetime', 'text') + (('datetime in zone', 'text with offset') if val % 7 == 0 or val < 3000 else ()):
+            given = {'datetime': when, 'text': when.replace(tzinfo=None).isoformat(timespec='milliseconds'),
+                     'datetime in zone': when.astimezone(zone), 'text with offset': when.astimezone(zone).isoformat(timespec='milliseconds')}[form]
             obs['time_conversions'] = obs.get('time_conversions', 0) + 1
             try:
                 real = Bundle(primary=PrimaryBlock(destination='dtn://d/', source='dtn://s/', report_to='dtn:none',
